@@ -63,6 +63,56 @@ Definition murmur64a_mem (mem : list Z) (len seed : Z) : Z :=
 
 Definition murmur64a (bs : list Z) (seed : Z) : Z := murmur64a_mem bs (Z.of_nat (length bs)) seed.
 
+(* ------------------------------------------------ MurmurHash64B ("64-bit hash for 32-bit platforms") *)
+Definition mask32 : Z := 4294967295.
+Definition w32 (x : Z) : Z := Z.land x mask32.          (* unsigned int wrap *)
+Definition mul32 (a b : Z) : Z := w32 (a * b).
+Definition half_bytes : nat := 4.                        (* sizeof(unsigned int) *)
+
+(* k *= m; k ^= k >> r; k *= m;  then  h *= m; h ^= k; *)
+Definition step32 (h k : Z) : Z :=
+  let k1 := mul32 k m64b_m in
+  let k2 := Z.lxor k1 (Z.shiftr k1 m64b_r) in
+  Z.lxor (mul32 h m64b_m) (mul32 k2 m64b_m).
+
+Inductive b_state := BState (data : list Z) (len h1 h2 : Z) | BFuel.
+
+(* while (len >= 8) { k1 = load; k2 = load; mix into h1 / h2; len -= 4 twice } *)
+Fixpoint b_body (fuel : nat) (data : list Z) (len h1 h2 : Z) : b_state :=
+  if m64b_loop_min <=? len then
+    match fuel with
+    | O => BFuel
+    | S f =>
+      let k1 := load_le half_bytes data in
+      let k2 := load_le half_bytes (skipn half_bytes data) in
+      b_body f (skipn half_bytes (skipn half_bytes data)) (len - m64b_loop_dec1 - m64b_loop_dec2) (step32 h1 k1) (step32 h2 k2)
+    end
+  else BState data len h1 h2.
+
+Definition murmur64b_mem (mem : list Z) (len seed : Z) : option Z :=
+  match b_body (S (Z.to_nat len)) mem len (w32 (Z.lxor seed len)) m64b_h2_init with
+  | BFuel => None
+  | BState data len1 h1 h2 =>
+    (* if (len >= 4) { one more word into h1 } *)
+    let '(data2, len2, h1a) :=
+      if m64b_half_min <=? len1 then (skipn half_bytes data, len1 - m64b_half_dec, step32 h1 (load_le half_bytes data))
+      else (data, len1, h1) in
+    (* switch (len) { case 3: .. << 16; case 2: .. << 8; case 1: ..; h2 *= m; } *)
+    let h2a := if 3 <=? len2 then Z.lxor h2 (w32 (Z.shiftl (nth 2 data2 0) m64b_tail_sh2)) else h2 in
+    let h2b := if 2 <=? len2 then Z.lxor h2a (w32 (Z.shiftl (nth 1 data2 0) m64b_tail_sh1)) else h2a in
+    let h2c := if 1 <=? len2 then mul32 (Z.lxor h2b (nth 0 data2 0)) m64b_m else h2b in
+    let g1 := mul32 (Z.lxor h1a (Z.shiftr h2c m64b_fin1)) m64b_m in
+    let g2 := mul32 (Z.lxor h2c (Z.shiftr g1 m64b_fin2)) m64b_m in
+    let g3 := mul32 (Z.lxor g1 (Z.shiftr g2 m64b_fin3)) m64b_m in
+    let g4 := mul32 (Z.lxor g2 (Z.shiftr g3 m64b_fin4)) m64b_m in
+    Some (Z.lor (w64 (Z.shiftl g3 m64b_join_shift)) g4)
+  end.
+Definition murmur64b (bs : list Z) (seed : Z) : option Z := murmur64b_mem bs (Z.of_nat (length bs)) seed.
+
+(* MurmurHashNativeBackend for the pointer size: 64B when the pointer size is native_64b_pointer_size, else 64A *)
+Definition murmur_native_for (pointer_size : Z) (bs : list Z) (seed : Z) : option Z :=
+  if pointer_size =? native_64b_pointer_size then murmur64b bs seed else Some (murmur64a bs seed).
+
 (* MurmurHashNative on a platform with 8-byte pointers (native_64b_pointer_size = 4 <> 8) *)
 Definition murmur_native (bs : list Z) (seed : Z) : Z := murmur64a bs seed.
 
